@@ -370,6 +370,28 @@ func (fv *FuncVerifier) evalFuncCall(fn *types.Func, call *ast.CallExpr, st *Sta
 		return fv.evalSpecHelper(fn, call, st)
 	}
 	sp := fv.prog.specs[key]
+	// a contract may be attached to a promoted method under the static receiver type
+	// of the call (e.g. methods of an embedded interface): pkg.T.Method
+	if alt, recvExpr := fv.staticRecvKey(fn, call); alt != "" && alt != key {
+		if asp := fv.prog.specs[alt]; asp != nil && (asp.Kind == SKTrusted || asp.Kind == SKIgnore) {
+			if asp.Kind == SKIgnore {
+				return fv.havocResults(sig.Results(), st)
+			}
+			args := []Term{fv.eval(recvExpr, st)}
+			for i, a := range call.Args {
+				var pt types.Type
+				if i < sig.Params().Len() {
+					pt = sig.Params().At(i).Type()
+				}
+				if pt != nil && fv.sortOf(pt) == nil {
+					args = append(args, Term{})
+					continue
+				}
+				args = append(args, fv.evalTo(a, pt, st))
+			}
+			return fv.modularCall(fn, asp, args, st, call.Pos())
+		}
+	}
 	if sp == nil {
 		if m, ok := builtinModels[key]; ok {
 			args, wb := fv.receiverAndArgs(fn, call, st)
@@ -387,6 +409,10 @@ func (fv *FuncVerifier) evalFuncCall(fn *types.Func, call *ast.CallExpr, st *Sta
 				}
 			}
 			return fv.havocResults(sig.Results(), st)
+		}
+		if fd := fv.prog.decls[key]; fd != nil && fd.decl.Body != nil && autoInlinable(fd.decl) && len(fv.frames) < 6 {
+			fv.u.note("helper %s has no contract: its body is executed at the call site (auto-inlined)", key)
+			return fv.inlineCall(fn, call, st)
 		}
 		reject("call to %s without contract at %s", key, fv.pos(call.Pos()))
 	}
@@ -448,8 +474,9 @@ func (fv *FuncVerifier) evalSpecHelper(fn *types.Func, call *ast.CallExpr, st *S
 				}
 				v := Term{name, srt}
 				fv.bound[obj] = v
-				if srt.Kind == KInt && isInteger(obj.Type()) && isUnsigned(obj.Type()) {
-					guards = append(guards, mk(sortBool, "(>= %s 0)", name))
+				if srt.Kind == KInt && isInteger(obj.Type()) && obj.Type() != types.Typ[types.Int] {
+					// quantification ranges over the values of the Go type
+					guards = append(guards, fv.u.inRange(obj.Type(), v))
 				}
 			}
 		}
@@ -508,7 +535,23 @@ func (fv *FuncVerifier) evalSpecHelper(fn *types.Func, call *ast.CallExpr, st *S
 		k := fv.eval(call.Args[0], st)
 		return []Term{sel(st.vars[top], k, sortBool)}
 	case "__fresh":
-		return []Term{boolT(true)}
+		// in a callee postcondition: x is a newly allocated object
+		x := fv.eval(call.Args[0], st)
+		if x.Sort == nil || x.Sort.Kind != KRef {
+			reject("__fresh of a non-reference")
+		}
+		if fv.oldState == nil {
+			reject("__fresh outside a postcondition")
+		}
+		oldAl := fv.allocSet(fv.oldState, x.Sort)
+		fv.pendingFresh = append(fv.pendingFresh, x)
+		return []Term{and(mk(sortBool, "(> %s 0)", x.S), not(sel(oldAl, x, sortBool)))}
+	case "__ite":
+		c := fv.evalCond(call.Args[0], st)
+		t := fv.typeOf(call)
+		a := fv.evalTo(call.Args[1], t, st)
+		b := fv.evalTo(call.Args[2], t, st)
+		return []Term{ite(c, a, b)}
 	case "__alloc":
 		x := fv.eval(call.Args[0], st)
 		if x.Sort == nil || x.Sort.Kind != KRef {
@@ -544,6 +587,28 @@ func (fv *FuncVerifier) evalSpecHelper(fn *types.Func, call *ast.CallExpr, st *S
 
 func errIs(e, target Term) Term {
 	return and(not(eq(e, Term{"0", sortInt})), mk(sortBool, "(= (err_root %s) (err_root %s))", e.S, target.S))
+}
+
+// staticRecvKey: for a method call x.M(...), the key pkg.T.M where T is the named
+// (possibly pointed-to) static type of x.
+func (fv *FuncVerifier) staticRecvKey(fn *types.Func, call *ast.CallExpr) (string, ast.Expr) {
+	se, ok := ast.Unparen(call.Fun).(*ast.SelectorExpr)
+	if !ok {
+		return "", nil
+	}
+	sel := fv.info().Selections[se]
+	if sel == nil || sel.Kind() != types.MethodVal {
+		return "", nil
+	}
+	t := types.Unalias(sel.Recv())
+	if p, ok := t.(*types.Pointer); ok {
+		t = types.Unalias(p.Elem())
+	}
+	n, ok := t.(*types.Named)
+	if !ok || n.Obj().Pkg() == nil {
+		return "", nil
+	}
+	return n.Obj().Pkg().Path() + "." + n.Obj().Name() + "." + fn.Name(), se.X
 }
 
 // callTSubst maps the type parameters of a generic callee (receiver and function
@@ -653,6 +718,7 @@ func (fv *FuncVerifier) pureApp(fn *types.Func, sp *FuncSpec, args []Term, st *S
 				n := sanitize(hf.name) + "!0"
 				fv.u.declare("heap:"+n, fmt.Sprintf("(declare-const %s %s)", n, hf.sort.Name))
 				h = Term{n, hf.sort}
+				fv.nilMapAxiom(hf.name, h)
 				fv.initHeaps[hf.name] = h
 			}
 		}
@@ -784,6 +850,19 @@ func (fv *FuncVerifier) getPure(fn *types.Func, sp *FuncSpec, ts map[*types.Type
 	fv.pureDefs[key] = pd
 	fv.pureUsed[sp.Key] = true
 	return pd
+}
+
+// autoInlinable: a loop-free, goroutine-free, defer-free body.
+func autoInlinable(fd *ast.FuncDecl) bool {
+	ok := true
+	ast.Inspect(fd.Body, func(n ast.Node) bool {
+		switch n.(type) {
+		case *ast.ForStmt, *ast.RangeStmt, *ast.GoStmt, *ast.SelectStmt, *ast.DeferStmt, *ast.SendStmt:
+			ok = false
+		}
+		return ok
+	})
+	return ok
 }
 
 func containsReturn(n ast.Node) bool {
@@ -1126,6 +1205,7 @@ func (fv *FuncVerifier) modularCall(fn *types.Func, sp *FuncSpec, args []Term, s
 		fv.oblige(st, "pre", fmt.Sprintf("%s:%d:%d", sp.Name, ord, i), t, p, "precondition of "+sp.Name+": "+c.Text)
 	}
 	old := st.clone()
+	beforeSMT := fv.buildQuery(st, boolT(true))
 	// 2. havoc the footprint
 	fv.havocFootprint(sp, args, st, old)
 	// 3. results
@@ -1138,13 +1218,30 @@ func (fv *FuncVerifier) modularCall(fn *types.Func, sp *FuncSpec, args []Term, s
 			continue
 		}
 		v := fv.u.freshConst(sp.Name+"_r", s)
+		fv.noAllocAssume = true
 		fv.assumeTyped(st, v, rt)
+		fv.noAllocAssume = false
 		results = append(results, v)
 	}
 	// 4. postconditions
 	vals := append(append([]Term{}, args...), results...)
+	fv.pendingFresh = nil
 	for _, c := range sp.Ensures {
 		st.assume(fv.evalWrapper(sp.PkgPath, c.Wrapper, vals, st, old))
+	}
+	for _, x := range fv.pendingFresh {
+		al := fv.allocSet(st, x.Sort)
+		st.heaps["alloc:"+heapName(x.Sort)] = fv.def("alloc", store(al, x, boolT(true)))
+	}
+	fv.pendingFresh = nil
+	for i, v := range results {
+		if v.Sort != nil {
+			fv.assumeTyped(st, v, sig.Results().At(i).Type())
+		}
+	}
+	// vacuity guard: the assumed postcondition must not contradict the state
+	if co := fv.cover(st, fmt.Sprintf("after:%s:%d", sp.Name, ord), boolT(true), "state after call to "+sp.Name+" is satisfiable"); co != nil {
+		co.AltSMT = beforeSMT
 	}
 	if sp.Kind == SKTrusted {
 		fv.trustedUsed[sp.Key] = true
@@ -1168,6 +1265,7 @@ func (fv *FuncVerifier) havocFootprint(sp *FuncSpec, args []Term, st *State, old
 		ref := fp[hn][0].ref.Sort
 		cur := fv.heap(st, ref)
 		nh := fv.u.freshConst(hn, cur.Sort)
+		fv.nilMapAxiom(hn, nh)
 		fv.assumeFrame(st, fp[hn], ref, cur, nh, "")
 		st.heaps[hn] = nh
 	}
